@@ -40,6 +40,24 @@ def sh(cmd, cwd=None, env=None, timeout=None, input=None):
     return p.returncode, p.stdout
 
 
+def code_under_test_panic(out):
+    """If the harness process died of a Go panic / fatal error raised INSIDE the code under test (first source frame that
+    is neither the Go runtime, a dependency nor the harness itself lies under REPO), return the trace; else None (a
+    crash of the harness's own code is a machinery error, not a verdict)."""
+    m = re.search(r'^(panic: |fatal error: ).*$', out, re.M)
+    if not m:
+        return None
+    tail = out[m.start():]
+    for fm in re.finditer(r'^\s+(/\S+\.go):(\d+)', tail, re.M):
+        path = fm.group(1)
+        if not path.startswith(REPO + '/'):
+            continue            # runtime / standard library / module cache
+        if '/cmd/zzverif/' in path or 'zz_verif' in os.path.basename(path):
+            return None         # the harness's own code raised it
+        return {'panic': m.group(0)[:300], 'at': f'{os.path.relpath(path, REPO)}:{fm.group(2)}', 'trace': tail[:4000]}
+    return None
+
+
 def newer(src_paths, target):
     if not os.path.exists(target):
         return True
